@@ -71,7 +71,10 @@ class Prop(PropBase):
                     val = F(rph0) + F(f0) * (F(mjd_s) - mjd0) * 86400
                     rph = f"{int(val)}.{int((val - int(val)) * 10**6):06d}"
                 else:
-                    rph = f"{rng.randint(0, 10**rng.choice([3, 9, 12]))}.{rng.randint(0, 10**rng.choice([4, 6, 10])):06d}"
+                    # fractions next to 0 and 1 included: integer and fractional digits are parsed separately
+                    fr = rng.choice([f"{rng.randint(0, 10**rng.choice([4, 6, 10])):06d}"] * 2
+                                    + ["999999", "000001", "9999999999", "0000000001", "5", "0", "499999", "500001"])
+                    rph = f"{rng.randint(0, 10**rng.choice([3, 9, 12]))}.{fr}"
                 coeffs = [self._coef(rng, i, small=coherent) for i in range(ncoef)]
                 entries.append({"mjd": mjd_s, "rphase": rph, "coeffs": coeffs})
             if rng.random() < 0.2 and nent > 2:
